@@ -127,6 +127,15 @@ one `Add` call per result, in order -/
 def postProcess (ttl now : Nat) (s : Store) (rs : List CheckResult) : Store :=
   add ttl now s (rs.filter (fun r => decide (r.pes = 0) && r.eligible))
 
+/-- `Observer.Process` of the flows (no pre-processor that filters, a check pipeline that answers with `rs`
+after `delay`, `CombinedPostprocessor{eligible}`): the results are post-processed at `now + delay`.
+The context (`pCtx`: the `ObservationProcessLimit` deadline, cancelled when the ticker closes) is handed to
+`PostProcess` — which, in the code as it is, does not look at it.  The context is therefore not an input of
+`postProcess` / `observerProcess`: done before the call, deadline passed, or ended between two results of
+a batch, every eligible result the pipeline returned is handed to `Add`; nothing may be skipped. -/
+def observerProcess (ttl now delay : Nat) (s : Store) (rs : List CheckResult) : Store :=
+  postProcess ttl (now + delay) s rs
+
 /-- `RemoveFromStagingHook.RunHook`: `Remove(workIDs of outcome.AgreedPerformables...)` -/
 def runHook (s : Store) (agreed : List CheckResult) : Store := remove s (agreed.map (·.workID))
 
